@@ -124,7 +124,8 @@ class SqlParseColumn(Column):
                             if isinstance(src_col.parent, Table)
                             and (
                                 src_col.parent in tables_read
-                                or src_col.parent.schema
+                                # a schema the reference spelled out, not the one every unqualified name gets
+                                or src_col.parent.schema != Schema()
                             )
                             else src_col.parent.raw_name
                         )
